@@ -363,7 +363,8 @@ func controlled(enc *json.Encoder, rng *rand.Rand, kind string) int {
 	set, src := derivedOrPlain(rng)
 	r.gate.HoldAll()
 	hive.VerifHook = func(p string) { r.gate.Wait("hook:" + p) }
-	defer func() { hive.VerifHook = nil }()
+	ds.VerifHook = hive.VerifHook // (the subscriber lists are ds.Lists: a writer's snapshot of the list is a sequence of stopping points too)
+	defer func() { hive.VerifHook, ds.VerifHook = nil, nil }()
 	v := hive.NewVariable[int]()
 	nw, ns := 1+rng.Intn(3), 1+rng.Intn(3)
 	subs := []int{}
